@@ -1593,6 +1593,42 @@ func tbC15Legacy(c *Ctx, p *packages.Package, attrs *types.Named) {
 	// interface version: threshold of Marshal and the constant element(s) of the initial list
 	ifField, threshold, thPos, thOK := tbIfVerThreshold(p, tbDecl(p, tbMethod(attrs, "Marshal")), mlFn)
 	if !thOK {
+		// read off the compiled encoder instead: the must-facts at the call of the legacy writer (which include those a
+		// predicate method of the receiver established, e.g. a.UsesLegacyFormat()) hold a comparison receiver.F < N
+		if mfn := c.w.Prog.FuncValue(tbMethod(attrs, "Marshal")); mfn != nil && mfn.Blocks != nil && mlFn != nil {
+			ww := c.w
+			ww.Focus(mfn)
+			mf := ww.Facts(mfn)
+			for _, call := range ww.callsInDeep(mfn) {
+				callee := call.Common().StaticCallee()
+				if callee == nil || callee.Object() != types.Object(mlFn) || !ww.inTree(mfn, call.Parent()) || call.Parent() != mfn {
+					continue
+				}
+				for l := range mf.At(call.Block()) {
+					bin, isBin := l.V.(*ssa.BinOp)
+					if !isBin {
+						continue
+					}
+					k, isK := intConst(bin.Y)
+					ex := ww.Expr(bin.X)
+					if !isK || !strings.HasPrefix(ex, "p0.") || strings.ContainsAny(ex[3:], ".([<") {
+						continue
+					}
+					op := bin.Op
+					if !l.Pol {
+						op = negOp(op)
+					}
+					switch op {
+					case token.LSS:
+						ifField, threshold, thPos, thOK = ex[3:], k, call.Pos(), true
+					case token.LEQ:
+						ifField, threshold, thPos, thOK = ex[3:], k+1, call.Pos(), true
+					}
+				}
+			}
+		}
+	}
+	if !thOK {
 		c.Unresolved(rule, "the comparison `a.IfVer < N` guarding the call of MarshalLegacy in (*Attributes).Marshal")
 	}
 	if len(w.elemConsts) == 0 {
@@ -2899,6 +2935,9 @@ func tablesC14(c *Ctx) {
 		// no policy table: the validity predicate itself enumerates the policies (e.g. a switch). It is run on every
 		// string constant it compares with and on a string equal to none of them.
 		vf := c.w.Func("common", "ValidNamespacePolicy")
+		if h := thinDelegate1(c.w, vf); h != nil {
+			vf = h // `return policy.Valid()`: the method that decides
+		}
 		if vf == nil || vf.Blocks == nil {
 			c.Unresolved(rule, "function common.ValidNamespacePolicy")
 		} else {
